@@ -28,12 +28,14 @@ from harness import designpower_util as U
 from harness.gnpy_util import TD
 
 BOUNDS = {
-    'quick': [dict(max_lib=2, wide=False, stride=7)],
-    'thorough': [dict(max_lib=3, wide=True, stride=23), dict(max_lib=4, wide=False, stride=211)],
+    'quick': [dict(max_lib=2, wide=False, stride=13)],
+    'thorough': [dict(max_lib=3, wide=True, stride=43), dict(max_lib=4, wide=False, stride=401)],
 }
 CLAUSES = ['ChosenPermitted', 'CoversBand', 'RamanOnlyIfAllowed', 'CapableIfPossible', 'QuietestCapable',
            'NeverRefusesWhenCapable', 'RestrictIsPermitted', 'CanAlwaysConclude', 'SketchRefinesProperty']
-BOOSTER, INLINE, PREAMP = 0, 1, 2
+BOOSTER, INLINE, PREAMP, BETWEEN = 0, 1, 2, 3
+POS_NAMES = ['booster', 'inline', 'preamp', 'between-roadms']
+JUDGED_UID = {BOOSTER: 'amp 0', INLINE: 'amp 1', PREAMP: 'amp 2', BETWEEN: 'amp 0'}
 
 
 def mc_cfg(b):
@@ -98,19 +100,23 @@ def concretise(js, variable_gain):
             # on (the fibre's reference frequency, 193.41 THz, lies there): above the Raman limit on part of the band
             decl[pos - 1] = {'value': [db(c['lossCoef']), ref, ref], 'frequency': [193.0e12, 193.2e12, 193.6e12]}
     spans = [[dict(kind='fiber', length_km=(L - 0.5) / k, loss_coef=d)] for L, k, d in zip(losses, coefs, decl)]
+    if pos == BETWEEN:
+        spans = []                          # ROADM A -> judged amplifier -> ROADM B
     judged = {}
     own = [mname(a) for a in lib if a['own']]
     if c['useOwn'] and own:
         judged['variety_list'] = own
-    amps = {k: ({'type_variety': 'helper'} if k != pos else judged) for k in range(3)}
+    amps = {0: judged} if pos == BETWEEN else {k: ({'type_variety': 'helper'} if k != pos else judged) for k in range(3)}
     rdm = [mname(a) for a in lib if a['rdm']]
-    ra = {'params': {'target_pch_out_db': -g if pos == BOOSTER else -20.0}}
+    ra = {'params': {'target_pch_out_db': -g if pos in (BOOSTER, BETWEEN) else -20.0}}
     rb = {'params': {}}
     if c['useRdm'] and rdm:
-        # both lists are declared on both ROADMs: only the booster list of the ROADM before and the preamp list of
-        # the ROADM after may take effect, and none of them on an inline amplifier
+        # the lists are declared on both ROADMs (booster lists, preamp lists or both, see rdmSide): only the booster
+        # list of the ROADM right before and the preamp list of the ROADM right after may take effect, an empty list is
+        # no restriction, and none of them applies to an inline amplifier
         for r in (ra, rb):
-            r['params']['restrictions'] = {'booster_variety_list': rdm, 'preamp_variety_list': rdm}
+            r['params']['restrictions'] = {'booster_variety_list': rdm if c['rdmSide'] in (0, 1) else [],
+                                           'preamp_variety_list': rdm if c['rdmSide'] in (0, 2) else []}
     return eq, U.line_topology(spans, roadm_a=ra, roadm_b=rb, amps=amps, reverse=False)
 
 
@@ -123,19 +129,19 @@ def run_case(js, variable_gain, tag):
         net, ref, rec = U.design_json(topo, eq)
     except ConfigurationError as e:
         # "no amplifier found": a refusal.  The trace carries the library as the harness reads it.
-        uid = {BOOSTER: 'amp 0', INLINE: 'amp 1', PREAMP: 'amp 2'}[c['pos']]
+        uid = JUDGED_UID[c['pos']]
         if uid not in str(e):
             raise Machinery(f'{tag}: the design failed outside the judged amplifier: {e}')
         names, lib = U.library_models(eq, db(c['g']), [mname(a) for a in js['lib'] if a['own'] and c['useOwn']],
-                                      [mname(a) for a in js['lib'] if a['rdm'] and c['useRdm'] and c['pos'] != INLINE])
+                                      [mname(a) for a in js['lib'] if a['rdm'] and c['hasRdm']])
         ctx = dict(g=c['g'], p=c['p'], ext=c['ext'], hasOwn=int(c['hasOwn']), hasRdm=int(c['hasRdm']), bfmin=c['bfmin'],
                    bfmax=c['bfmax'], prevFiber=int(c['prevFiber']), lossCoef=c['lossCoef'], ramanLimit=c['ramanLimit'])
         return 'refused', dict(name=tag, kind=0, jp=1, c=ctx, lib=lib, chosen=0, refused=1, hasList=0, groups=[],
-                               ptype=U.NONE, named=U.NONE, members=[]), str(e)
+                               ptype=U.NONE, named=U.NONE, members=[], sels=[]), str(e)
     except Exception as e:                                               # noqa
         return f'EXC {type(e).__name__}', None, str(e)
     tr, cx = U.selection_traces(net, eq, rec, tag)
-    uid = {BOOSTER: 'amp 0', INLINE: 'amp 1', PREAMP: 'amp 2'}[c['pos']]
+    uid = JUDGED_UID[c['pos']]
     mine = [(t, x) for t, x in zip(tr, cx) if x['uid'] == uid]
     if len(mine) != 1:
         raise Machinery(f'{tag}: {len(mine)} selections recorded for the judged amplifier')
@@ -152,8 +158,8 @@ def run_case(js, variable_gain, tag):
 
 def describe(js):
     c = js['c']
-    return dict(g=db(c['g']), p=db(c['p']), position=['booster', 'inline', 'preamp'][c['pos']], fibre=['0.2 dB/km', '0.3 dB/km', '0.30..0.24 dB/km'][c['fibre']],
-                useOwn=c['useOwn'], useRdm=c['useRdm'],
+    return dict(g=db(c['g']), p=db(c['p']), position=POS_NAMES[c['pos']], fibre=['0.2 dB/km', '0.3 dB/km', '0.30..0.24 dB/km'][c['fibre']],
+                useOwn=c['useOwn'], useRdm=c['useRdm'], roadm_lists=['booster+preamp', 'booster only', 'preamp only'][c['rdmSide']],
                 library=[{k: (db(a[k]) if k in ('gmin', 'flat', 'pmax', 'nf0', 'nf') else a[k])
                           for k in ('name', 'id', 'gmin', 'flat', 'pmax', 'nf0', 'nf', 'raman', 'fmin', 'own', 'rdm', 'alw')}
                          for a in sorted(js['lib'], key=lambda m: m['id'])],
@@ -181,7 +187,7 @@ def case_class(js, got):
     else:
         kinds.append(got.split(':')[0].replace(' ', '-'))
     src = 'own' if c['hasOwn'] else ('roadm' if c['hasRdm'] else 'allowed')
-    return f'{"+".join(kinds) or "other"}|list={src}|pos={["booster", "inline", "preamp"][c["pos"]]}'
+    return f'{"+".join(kinds) or "other"}|list={src}|pos={POS_NAMES[c["pos"]]}'
 
 
 def judge(traces, chk, tag):
@@ -233,11 +239,11 @@ def selfcheck_monitor(traces, chk):
 MB_BANDS = [{'f_min': 191.3e12, 'f_max': 196.0e12, 'spacing': 50e9}, {'f_min': 187.0e12, 'f_max': 190.0e12, 'spacing': 50e9}]
 
 
-def multiband_line(own=None, booster=None, preamp=None, operator_type=None):
+def multiband_line(own=None, booster=None, preamp=None, operator_type=None, lengths=(70, 105, 50)):
     """C+L line ROADM A -> amp 0 -> 70 km -> amp 1 -> 105 km -> amp 2 -> 50 km -> amp 3 -> ROADM B of Multiband_amplifier
     elements.  own: variety_list of amp 1; booster / preamp: restriction lists of ROADM A / ROADM B; operator_type: the
     multiband type the operator gives every amplifier (its band models are still left to auto-design)"""
-    spans = [[dict(kind='fiber', length_km=L)] for L in (70, 105, 50)]
+    spans = [[dict(kind='fiber', length_km=L)] for L in lengths]
     amps = {k: {'amplifiers': []} for k in range(4)}
     if operator_type:
         amps = {k: {'type_variety': operator_type} for k in range(4)}
@@ -257,6 +263,10 @@ def multiband_scenarios(eq):
     ingress ROADM, preamp restriction of the egress ROADM, operator-chosen type of every amplifier; plus no list"""
     types = [g for g, a in eq['Edfa'].items() if a.type_def == 'multi_band']
     yield 'auto', multiband_line()
+    # required gains swept in 0.5 dB steps through the flat and extended gain ranges of the library's multiband types
+    for k, lengths in enumerate(((42.5, 80, 117.5), (45, 82.5, 120), (47.5, 85, 122.5), (50, 87.5, 125), (52.5, 90, 127.5),
+                                 (55, 92.5, 130), (57.5, 77.5, 132.5), (60, 75, 135))):
+        yield f'auto-gains-{k}', multiband_line(lengths=lengths)
     for t in types:
         yield f'own={t}', multiband_line(own=[t])
         yield f'booster={t}', multiband_line(booster=[t])
@@ -374,7 +384,8 @@ def run(chk):
     n = n_ok = n_open = n_vg = 0
     exercised = dict(own_list=0, roadm_list=0, allowed=0, raman_capable=0, raman_blocked=0, narrow_band=0,
                      several_capable=0, none_capable=0, refusal_admitted=0, below_min_gain_allowance=0,
-                     band_edge_model_is_the_choice=0, quieter_raman_lacks_power=0, mixed_loss_fibre_blocks_quieter_raman=0)
+                     band_edge_model_is_the_choice=0, quieter_raman_lacks_power=0, mixed_loss_fibre_blocks_quieter_raman=0,
+                     between_roadms_preamp_list_only=0)
     mism = []
     for b in BOUNDS[chk.tier]:
         r = tlc.run('MC_AmpSelection', cfg_text=mc_cfg(b), timeout=2400, tag='c10-mc')
@@ -382,7 +393,7 @@ def run(chk):
         for js in r.emitted:
             name_models(js)
             c = js['c']
-            key = json.dumps([sorted(a['id'] for a in js['lib']), c['g'], c['pos'], c['fibre'], c['useOwn'], c['useRdm']])
+            key = json.dumps([sorted(a['id'] for a in js['lib']), c['g'], c['pos'], c['fibre'], c['useOwn'], c['useRdm'], c['rdmSide']])
             n += 1
             tag = 'B2#' + format(zlib.crc32(key.encode()), '08x')
             got, trace, err = run_case(js, False, tag)
@@ -420,6 +431,8 @@ def run(chk):
             exercised['refusal_admitted'] += got == 'refused'
             exercised['below_min_gain_allowance'] += bool(js['open'])
             best = min((a['nf'] for a in js['lib'] if a['id'] in js['adm']), default=None)
+            exercised['between_roadms_preamp_list_only'] += bool(js['cap']) and c['pos'] == BETWEEN and c['hasRdm'] and \
+                c['rdmSide'] == 2 and not c['hasOwn']
             exercised['band_edge_model_is_the_choice'] += bool(js['cap']) and any(
                 a['fmax'] == c['bfmax'] and a['id'] in js['adm'] for a in js['lib'])
             exercised['quieter_raman_lacks_power'] += bool(js['cap']) and ramanok and any(
